@@ -172,22 +172,35 @@ def norm_pairing(ctx, P, step):
                          f"the constants-shape and spin-matching rules do not apply")
     if mcf is not None and roles is not None:
         ev = Evaluator(p)
+        ev.inline_policy = lambda callee, rc, fr_: callee.cls is None and callee.module in ("linalg_utils", "propagation")
         fr = ev.eval_function(mcf, self_class=P)
         R = strip_wrappers(ev.result(fr))
         wpar, cpar = sym(roles[0]), sym(roles[1])
-        good = True
+        good, crossed, unread = True, [], []
+        from ..rules.match import strip_reshape
         for s in (0, 1):
             v = strip_wrappers(getitem(R, const(s)))
             m = m_binop(v, "*")
             this = False
             if m is not None:
                 for a, b in ((m[0], m[1]), (m[1], m[0])):
-                    from ..rules.match import strip_reshape
                     if strip_reshape(a) is getitem(cpar, const(s)) and strip_wrappers(b) is getitem(wpar, const(s)):
                         this = True
+                    elif strip_reshape(a) is getitem(cpar, const(1 - s)) and strip_wrappers(b) is getitem(wpar, const(s)):
+                        crossed.append(s)
+                    elif strip_reshape(a) is getitem(cpar, const(s)) and strip_wrappers(b) is getitem(wpar, const(1 - s)):
+                        crossed.append(s)
+            if not this and s not in crossed:
+                unread.append(s)
             good = good and this
-        ctx.ob("PAIR-1", f"{mcf.qualname}: constants[s] multiplies walkers[s]", good,
-               "spin-matched scaling" if good else "a spin block is scaled by the other spin's constant", mcf)
+        if unread and not crossed:
+            # the scaling is written in a form this rule does not read (a helper that is not evaluated in place, a
+            # broadcast over a stacked array): no spin pairing identified, nothing judged
+            ctx.rep.note(f"{mcf.qualname}: block(s) {unread} of its result are not a product constants[s] * walkers[s] this rule "
+                         f"can read; the spin-matching rule does not apply")
+        else:
+            ctx.ob("PAIR-1", f"{mcf.qualname}: constants[s] multiplies walkers[s]", good,
+                   "spin-matched scaling" if good else f"spin block(s) {crossed} scaled by / taken from the other spin", mcf)
 
 
 def _constants_shape(ctx, q, step, cst):
